@@ -149,7 +149,7 @@ theorem trail_down {W : World Node VH V} (hOK : W.OK) {r : Req Node VH V} (ht : 
 inductive WalkOK (W : World Node VH V) (ps : PageSet Node) (k : Key) (D ios : Nat) (pid : Option PageId) :
     Walk Node VH V → Prop where
   | returned {r' : Req Node VH V} : r'.key = k → r'.ios = ios → Trail W r' → PidOK r' → StOK W ps r' none →
-      WalkOK W ps k D ios pid (.returned r')
+      D < r'.pos.depth → WalkOK W ps k D ios pid (.returned r')
   | bottom {r' : Req Node VH V} : r'.key = k → r'.ios = ios → Trail W r' → r'.st = .seeking → r'.pageId = pid →
       r'.pos.depth = D + 6 → 2 ≤ (under (k.take (D + 6)) W.view).length → WalkOK W ps k D ios pid (.bottom r')
 
@@ -208,7 +208,7 @@ theorem walkPage_ok (W : World Node VH V) (hOK : W.OK) (ps : PageSet Node) (k : 
         simp only [hdep]; exact hu
       obtain ⟨r', e1, e2, e3, e4, e5, e6, e7⟩ := startLeafFetch_ok W hOK ps _ k0 v0 ht1 hu'
       rw [e1]
-      refine ⟨.returned r', rfl, WalkOK.returned e2 e6 (trail_congr ht1 e2 e3 e5) ?_ e7⟩
+      refine ⟨.returned r', rfl, WalkOK.returned e2 e6 (trail_congr ht1 e2 e3 e5) ?_ e7 (by rw [e3]; simp only [hdep]; omega)⟩
       unfold PidOK
       rw [e4, e3, e2]
       simp only [hdep]
@@ -221,7 +221,7 @@ theorem walkPage_ok (W : World Node VH V) (hOK : W.OK) (ps : PageSet Node) (k : 
         have hbeq2 : (W.H.kind (specNode W.H W.view (r.key.take (r.pos.depth + 1))) == Kind.terminator) = true := by simp [hterm]
         rw [if_pos hbeq2]
         have hu := kind_term_under hOK.sound (view_canon W hOK) _ (by rw [hdl]; omega) hterm
-        refine ⟨_, rfl, WalkOK.returned rfl rfl ?_ ?_ ?_⟩
+        refine ⟨_, rfl, WalkOK.returned rfl rfl ?_ ?_ ?_ (by simp only [hdep]; omega)⟩
         · exact trail_congr ht1 rfl rfl rfl
         · unfold PidOK
           simp only [hdep]
